@@ -127,6 +127,10 @@ def gen_case(rng):
     evs = [{"base": ("clone", 0)}]
     for (mid, arg) in calls:
         evs.append({"base": ("call", rng.randrange(2), mid, arg)})
+    # a value lent by the instance may itself own a clone of the mock (make_ref(u.clone())): it is released
+    # with the instance, before the verdict is computed
+    if rng.random() < 0.25:
+        evs.insert(rng.randint(1, len(evs)), {"base": ("lend", rng.randrange(2))})
     evs += [{"base": ("drop", 1)}, {"base": (rng.choice(["drop", "verify", "report"]), 0)}]
     return {"partial": rng.random() < 0.3, "terms": terms, "events": evs, "_steered": steered}
 
